@@ -669,7 +669,9 @@ func pslashFamily(o hreg.Opts) *family {
 	for _, b := range []struct {
 		cfg          string
 		ep, slot, pr uint64
-	}{{"s", 3, 20, 7}, {"s", 3, 9, 40}, {"b", 2, 16, 255}, {"s", 1, 3, 0}, {"s", 5, 44, 33}} {
+	}{{"s", 3, 20, 7}, {"s", 3, 9, 40}, {"b", 2, 16, 255}, {"s", 1, 3, 0}, {"s", 5, 44, 33},
+		// head in epoch 0: every genesis validator is in its activation epoch
+		{"s", 0, 3, 5}, {"b", 0, 1, 200}} {
 		k := newKVs("pslash")
 		k.set("cfg", b.cfg).setU("ep", b.ep).setU("slot1", b.slot).setU("slot2", b.slot).setU("prop1", b.pr).setU("prop2", b.pr).
 			set("hdiff", "1").set("sigk1", "ok").set("sigk2", "ok").set("vmod", "-").set("seen", "0").set("head", "1")
@@ -690,7 +692,9 @@ func pslashFamily(o hreg.Opts) *family {
 		{"headers", []mutation{m("identical-headers", set("hdiff", "0"))}},
 		{"seen", []mutation{m("seen", set("seen", "1"))}},
 		{"head", []mutation{m("head-err", set("head", "0"))}},
-		{"validator", []mutation{vm("slashed"), vm("withdrawn"), vm("inactive"), vm("unwd"), vm("exited")}},
+		// all four edges of is_slashable_validator: activation_epoch in {epoch, epoch+1}, withdrawable_epoch in {epoch, epoch+1}
+		{"validator", []mutation{vm("slashed"), vm("withdrawn"), vm("inactive"), vm("unwd"), vm("exited"),
+			vm("justactive"), vm("actnext"), vm("wdnext")}},
 		{"sig1", sigAlts("sigk1")},
 		{"sig2", sigAlts("sigk2")},
 	}
@@ -710,6 +714,9 @@ func aslashFamily(o hreg.Opts) *family {
 		mk("s", 3, 0, 3, 1, 2, []uint64{1, 2, 3, 60}, []uint64{2, 60}),    // surround vote
 		mk("b", 4, 1, 3, 2, 3, []uint64{100, 255}, []uint64{0, 100, 255}), // double vote (different source)
 		mk("s", 3, 2, 3, 2, 3, []uint64{7}, []uint64{7}),
+		// head in epoch 0: every genesis validator is in its activation epoch
+		mk("s", 0, 0, 0, 0, 0, []uint64{4, 8}, []uint64{8, 30}),
+		mk("b", 0, 0, 1, 0, 1, []uint64{17}, []uint64{17, 18}),
 	}
 	vmAll := func(kind string) mutation {
 		return m("intersection:"+kind, func(k *kvs) {
@@ -765,7 +772,8 @@ func aslashFamily(o hreg.Opts) *family {
 			})}},
 		{"allseen", []mutation{m("all-seen", set("allseen", "1"))}},
 		{"head", []mutation{m("head-err", set("head", "0"))}},
-		{"validators", []mutation{vmAll("slashed"), vmAll("withdrawn"), vmAll("inactive"), vmFirst("slashed"), vmFirst("unwd")}},
+		{"validators", []mutation{vmAll("slashed"), vmAll("withdrawn"), vmAll("inactive"), vmFirst("slashed"), vmFirst("unwd"),
+			vmAll("justactive"), vmAll("actnext"), vmAll("wdnext"), vmFirst("actnext"), vmFirst("justactive")}},
 		{"sig1", asig("sigk1")},
 		{"sig2", asig("sigk2")},
 	}
